@@ -105,7 +105,16 @@ def gen_expansion(tier, rng, prefix, count):
         n = cap + 1
         subs = ["D%d,0,1" % (k + 1) for k in range(n)]
         reads = ["R%d" % (k + 1) for k in range(n)]
-        v = ["highwater", "expire", "twobursts", "race", "busy_fire", "race3", "precancelled"][i % 7]
+        v = ["highwater", "expire", "twobursts", "race", "busy_fire", "race3", "precancelled", "biglimit"][i % 8]
+        if v == "biglimit":
+            # "unbounded" expansion: the largest limits an int32 holds; every submission beyond the queue slot gets its own worker
+            big = [(1 << 31) - 1, (1 << 31) - 2, (1 << 31) - 1, 1 << 30][(i // 8) % 4]
+            k = rng.choice([3, 4])
+            subs = ["D%d,0,1" % (j + 1) for j in range(k + 1)]
+            reads = ["R%d" % (j + 1) for j in range(k + 1)]
+            ths = [subs + ["/"] + reads, ["W%d" % k, "G1", "/"]]
+            out.append(S("%s%d" % (prefix, i), ths, rnd(tier, rng, 300, 3000), workers=1, limit=big, autostart=1))
+            continue
         if v == "precancelled":
             # on the saturated pool, submissions whose own context is ALREADY done (refused at once), then a live burst:
             # the refused ones must leave the reservation counter as they found it
@@ -264,5 +273,5 @@ def gen_c12(tier, rng):
         + gen_deferred_start(tier, rng, "d", scale(tier, 9, 60))
 
 def gen_c17(tier, rng):
-    return gen_saturated(tier, rng, "a", scale(tier, 24, 200)) + gen_expansion(tier, rng, "e", scale(tier, 6, 50)) \
+    return gen_saturated(tier, rng, "a", scale(tier, 24, 200)) + gen_expansion(tier, rng, "e", scale(tier, 8, 56)) \
         + gen_basic(tier, rng, "b", scale(tier, 10, 80), stop=False) + gen_deferred_start(tier, rng, "d", scale(tier, 9, 60))
